@@ -201,6 +201,7 @@ def serviceStep (st : ServiceSt) (toks : List String) : ServiceSt × String :=
       (setInst st { name := x, svc := Svc.init cfg r }, "ok")
   | ["spermit", _] => (st, "ok")   -- the permit list concerns the packet filter only
   | ["sevresub", _] => (st, "ok")  -- a new event stream: what is observed does not change
+  | ["ssleep", _] => (st, "ok")
   | ["sevpause", x] =>
     match getInst st x with
     | some i => (setInst st { i with evPaused := true }, "ok")
